@@ -188,6 +188,10 @@ def run_impl(steps, limit=5.0):
 
 # ------------------------------------------------------------------ model side
 
+COVER = False           # set by a check that wants the theorem-coverage counts
+COVER_COUNTS = {'evaluations': 0, 'balance_theorem_applies': 0, 'optimize_theorem_applies': 0}
+
+
 def model_lines(steps):
     """request lines for one case (first line resets the model)"""
     lines = ['reset']
@@ -207,6 +211,9 @@ def model_lines(steps):
             lines.append(f'unload {hx(st[1])}')
         elif kind in ('eval', 'evalast'):
             ast = impl.parse(st[2]) if kind == 'eval' else st[2]
+            if COVER:
+                # ask the model first whether this evaluation falls under the global theorems (no effect on the model state)
+                lines.append(f'#ignore cover {st[1] or "-"} {FUEL} ' + wire.enc(ast))
             lines.append(f'eval {st[1] or "-"} {FUEL} ' + wire.enc(ast))
         elif kind == 'state':
             lines.append('state')
@@ -328,6 +335,11 @@ def run_model_cases(cases_steps):
         spans.append((len(lines), len(ls)))
         lines.extend(ls)
     replies = Model().run([ln[8:] if ln.startswith('#ignore ') else ln for ln in lines])
+    for ln, rp in zip(lines, replies):
+        if ln.startswith('#ignore cover ') and rp.startswith('cov '):
+            COVER_COUNTS['evaluations'] += 1
+            COVER_COUNTS['balance_theorem_applies'] += ' R1' in rp
+            COVER_COUNTS['optimize_theorem_applies'] += ' F1' in rp
     res = []
     for steps, (off, n) in zip(cases_steps, spans):
         # skip the reply to `reset` and to auxiliary lines
